@@ -17,6 +17,8 @@ import (
 
 var int8T = reflect.TypeFor[int8]()
 
+type lateComp struct{ V int64 }
+
 type relDummy struct {
 	ecs.RelationMarker
 	V int32
@@ -60,11 +62,32 @@ func registryCase(n, order int) (steps int, v *drv.Violation) {
 	var ents []ent
 	ids := make([]ecs.ID, 0, n)
 	var resSeen []ecs.ResID
+	// order 2, n >= 2: the first registered type is a relation component, and three relation tables exist
+	// (tables outnumber archetypes) while all later types are registered
+	relFirst := order == 2 && n >= 2
+	if relFirst {
+		base := typeOf
+		typeOf = func(i int) reflect.Type {
+			if i == 0 {
+				return thRel(11)
+			}
+			return base(i)
+		}
+	}
+	var relChildren []ecs.Entity
+	var relTargets []ecs.Entity
 	for i := 0; i < n; i++ {
 		steps++
 		var id ecs.ID
 		if tryDo(func() { id = ecs.TypeID(w, typeOf(i)) }) {
 			return fail("registering type #%d (of max %d) panicked", i+1, MaxComps)
+		}
+		if relFirst && i == 0 {
+			for k := 0; k < 3; k++ {
+				tg := w.NewEntity()
+				relTargets = append(relTargets, tg)
+				relChildren = append(relChildren, w.Unsafe().NewEntityRel([]ecs.ID{id}, ecs.RelID(id, tg)))
+			}
 		}
 		for j, old := range ids {
 			if old == id {
@@ -98,7 +121,7 @@ func registryCase(n, order int) (steps int, v *drv.Violation) {
 			return fail("re-requesting type #%d returned ID %d, first time %d", i, id.Index(), ids[i].Index())
 		}
 		info, ok := ecs.ComponentInfo(w, ids[i])
-		if !ok || info.Type != typeOf(i) || info.ID != ids[i] || info.IsRelation {
+		if !ok || info.Type != typeOf(i) || info.ID != ids[i] || info.IsRelation != (relFirst && i == 0) {
 			return fail("ComponentInfo(%d) = %+v ok=%v, expected type %v", i, info, ok, typeOf(i))
 		}
 	}
@@ -226,13 +249,13 @@ func registryCase(n, order int) (steps int, v *drv.Violation) {
 		}
 	}
 	u := w.Unsafe()
-	if relLast {
+	if relLast || relFirst {
 		// the relation component needs a target: keep it out of the plain sets
 		var keep [][]int
 		for _, set := range sets {
 			has := false
 			for _, i := range set {
-				has = has || ids[i] == relID
+				has = has || (relLast && ids[i] == relID) || (relFirst && i == 0)
 			}
 			if !has {
 				keep = append(keep, set)
@@ -343,6 +366,52 @@ func registryCase(n, order int) (steps int, v *drv.Violation) {
 			if c2 != exp {
 				return fail("filter with(%d) without(%d) counts %d, expected %d", en.set[0], other, c2, exp)
 			}
+		}
+	}
+	for k, c := range relChildren {
+		steps++
+		if !w.Alive(c) || u.GetRelation(c, ids[0]) != relTargets[k] {
+			return fail("relation child %d (created before the other types were registered) lost its target", k)
+		}
+	}
+	if relFirst && len(ecs.ComponentIDs(w)) < MaxComps {
+		// a statically typed component used (and thereby registered) for the first time now, through the typed API
+		steps++
+		var v *drv.Violation
+		if tryDo(func() {
+			m := ecs.NewMap1[lateComp](w)
+			e1 := m.NewEntity(&lateComp{V: 100})
+			e2 := m.NewEntity(&lateComp{V: 200})
+			if p := m.Get(e1); p == nil || p.V != 100 {
+				_, v = fail("late registered component: Map1.Get of the first entity does not return the value it was created with")
+				return
+			}
+			if p := m.Get(e2); p == nil || p.V != 200 {
+				_, v = fail("late registered component: Map1.Get of the second entity does not return the value it was created with")
+				return
+			}
+			for k, c := range relChildren {
+				if m.HasAll(c) || m.Get(c) != nil {
+					_, v = fail("late registered component: relation child %d appears to have it", k)
+					return
+				}
+			}
+			q := ecs.NewFilter1[lateComp](w).Query()
+			cnt, seen := q.Count(), 0
+			for q.Next() {
+				seen++
+				if got := q.Get(); got != m.Get(q.Entity()) {
+					_, v = fail("late registered component: query pointer differs from Map1.Get")
+				}
+			}
+			if v == nil && (cnt != 2 || seen != 2) {
+				_, v = fail("late registered component: filter counts %d and visits %d entities, expected 2", cnt, seen)
+			}
+		}) {
+			return fail("valid use of a component registered after relation tables existed panicked: %v", lastPanic)
+		}
+		if v != nil {
+			return steps, v
 		}
 	}
 	_ = unsafe.Pointer(nil)
